@@ -318,7 +318,7 @@ func instances(tier string, rnd *rand.Rand, cases []*tcase) []*input {
 	huge := []int{1 << 16, 1 << 20}
 	many := []int{1000, 20000}
 	if thorough {
-		comment = append(comment, 1000000, 4000000)
+		comment = append(comment, 1000000, 4000000, 6000000)
 		huge = append(huge, 8<<20)
 		many = append(many, 200000)
 	}
